@@ -51,8 +51,9 @@ type Event struct {
 	SleepMs int64   `json:"sleep_ms,omitempty"`
 	N       int     `json:"n,omitempty"`
 	Burst   []Req   `json:"burst,omitempty"`
-	Probe   bool    `json:"probe,omitempty"` // follow with probes (same connection + fresh connection)
-	PReq    *Req    `json:"preq,omitempty"`  // the probe request
+	Preempt int     `json:"preempt,omitempty"` // burst: handlers yield the processor every Preempt-th statement (0 = never)
+	Probe   bool    `json:"probe,omitempty"`   // follow with probes (same connection + fresh connection)
+	PReq    *Req    `json:"preq,omitempty"`    // the probe request
 }
 
 var sortedSuites = func() []string {
@@ -499,6 +500,7 @@ func GenPlan(t *rapid.T, prop string) *Plan {
 			e.Kind = "restart"
 		case 6:
 			e.Kind = "burst"
+			e.Preempt = rapid.SampledFrom([]int{0, 1, 2, 3, 7, 19, 50}).Draw(t, "preempt")
 			n := rapid.IntRange(2, 12).Draw(t, "burstN")
 			for j := 0; j < n; j++ {
 				if adversarial && rapid.Bool().Draw(t, "burstAttack") {
